@@ -142,8 +142,12 @@ proof fn lemma_tot_push(h: Seq<Value>, v: Value)
 //@rule R12 min=3
 //@sub /let overlap = &mut zoom_item\.overlap;/ => ""
 //@sub /(?<![\w.`])overlap\b(?!`)/ => zoom_item.overlap min=10
-//@sub /zoom_item\.overlap\s*\.get_last\(\)\s*\.map\(\|o\| o\.end >= item_start\)\s*\.unwrap_or\(true\)/ => (zoom_item.overlap@.len() > 0 ==> zoom_item.overlap@.last().end >= item_start)
-//@sub /zoom_item\.overlap\s*\.get_first\(\)\s*\.map\(\|f\| f\.start < next_start\)\s*\.unwrap_or\(false\)/ => first_starts_before(&zoom_item.overlap, next_start)
+//@sub /zoom_item\.overlap\s*\.get_last\(\)\s*\.map\(\|o\| o\.end (==|!=|>=|<=|>|<) item_start\)\s*\.unwrap_or\((true|false)\)/ => OPT_OR_\2(zoom_item.overlap@.len() > 0, zoom_item.overlap@.last().end \1 item_start)
+//@sub /OPT_OR_true\(([^,]*), ([^()]*(?:\(\))?[^()]*)\)/ => (\1 ==> \2) min=0
+//@sub /OPT_OR_false\(([^,]*), ([^()]*(?:\(\))?[^()]*)\)/ => (\1 && \2) min=0
+//@sub /zoom_item\.overlap\s*\.get_first\(\)\s*\.map\(\|f\| f\.start (==|!=|>=|<=|>|<) next_start\)\s*\.unwrap_or\((true|false)\)/ => FIRST_START{\1}{\2}(&zoom_item.overlap, next_start)
+//@sub /FIRST_START\{<\}\{false\}\(&zoom_item\.overlap, next_start\)/ => first_starts_before(&zoom_item.overlap, next_start) min=0
+//@sub /FIRST_START\{([^}]*)\}\{(\w+)\}\(&zoom_item\.overlap, next_start\)/ => (match zoom_item.overlap.get_first() { Some(f) => f.start \1 next_start, None => \2 }) min=0
 //@sub /next_val\.map\(\|v\| v\.start\)\.unwrap_or\(/ => next_val.unwrap_or( min=0
 //@sub /next_val\.map_or\(\s*([\w.:]+(?:\(\))?)\s*,\s*\|v\| v\.start\s*\)/ => next_val.unwrap_or(\1) min=0
 //@sub /\bu32::max_value\(\)/ => u32::MAX min=0
@@ -431,7 +435,7 @@ proof fn lemma_tot_push(h: Seq<Value>, v: Value)
                 proof {
                     assert(live0.is_none() ==> min0 == val && max0 == val); [[L: loop3/shape/fresh_record_min_is_value]]
                 }
-//@at /zoom2\.summary\.sum_squares = zoom2\.summary\.sum_squares \+/ after
+//@at /zoom2\.summary\.sum_squares = zoom2\.summary\.sum_squares [-+*]/ after
                     proof {
                         // float fields: shape pinned over uninterpreted float operators; weight = added bases, value = segment depth
                         let w = f64::from_spec((add_end - add_start) as u32);
